@@ -33,6 +33,9 @@ def const_val(t):
     return t[2]
 
 
+TWO_VARIANT = set()  # terms known to be of a two-variant enum type (registered by the evaluator at discriminant reads)
+
+
 def lit(c):
     """normalise a boolean term into (atom, polarity)"""
     if c[0] == "not":
@@ -47,6 +50,11 @@ def lit(c):
         return ("==", a, b), False
     if c[0] == "==":
         a, b = sorted([c[1], c[2]], key=repr)
+        # discriminant of a two-variant enum (Option / Result): `discr == 1` is `not (discr == 0)`
+        for x, y in ((a, b), (b, a)):
+            if isinstance(x, tuple) and x[0] == "discr" and x[1] in TWO_VARIANT and is_const(y) and y[2] == 1 and y[1] == "int":
+                a0, b0 = sorted([x, ("c", "int", 0)], key=repr)
+                return ("==", a0, b0), False
         # (bool_term == true/false) -> the term itself
         for x, y in ((a, b), (b, a)):
             if is_const(x) and x[1] == "bool":
